@@ -418,3 +418,12 @@ Theorem model_macro_end_to_end : forall d,
   /\ (forall c raw, raw < 2 ^ d_W d ->
         eval c (mk_env (d_W d) raw 0 (VBool false)) (gen_raw_value (storage (d_W d)) (d_W d)) = Ok (VInt (base_ty (d_W d)) raw)).
 Proof. exact macro_model_end_to_end. Qed.
+
+(** C06: ZERO is 0; DEFAULT (hence new() and Default::default(), whose bodies are Self::DEFAULT) carries the declared value *)
+Theorem C06_zero_and_default_carry_the_declared_value : forall d,
+  (match d_default d with Some df => default_value df < 2 ^ d_W d | None => True end) ->
+  forall c, In c (expected_consts d) ->
+  cinit_value d (c_init c) =
+  Some (if String.eqb (c_name c) "ZERO" then 0
+        else match d_default d with Some df => default_value df | None => 0 end).
+Proof. exact C06_constants_carry_the_declared_value. Qed.
